@@ -639,6 +639,7 @@ macro_rules! split_with_settings {
                         }
                         ranges.push((0, len + 1));
                         ranges.push((len + 1, len + 1));
+                        ranges.push((len + 1, len));
                         if len > 0 {
                             ranges.push((len, len - 1));
                         }
